@@ -167,8 +167,120 @@ fn show_outcome(r: Result<Option<Response>, MpdProtocolError>) -> (String, bool)
 
 const GREETING: &[u8] = b"OK MPD 0.23.5\n";
 
+fn pattern(n: usize) -> Vec<u8> {
+    let block: Vec<u8> = (0..251usize).map(|i| ((i * 7 + 13) % 251) as u8).collect();
+    let mut v = Vec::with_capacity(n);
+    while v.len() < n {
+        let k = (n - v.len()).min(block.len());
+        v.extend_from_slice(&block[..k]);
+    }
+    v
+}
+
+fn digest(r: &Response) -> String {
+    let mut parts = Vec::new();
+    for f in r.frames() {
+        match f {
+            Ok(fr) => {
+                let b = fr.binary();
+                let sum: u64 = b.map(|b| b.iter().map(|x| *x as u64).sum()).unwrap_or(0);
+                let fields: Vec<String> = fr.fields().map(|(k, v)| format!("{k}={v}")).collect();
+                parts.push(format!("({})bin={}", fields.join(","), b.map(|b| format!("{}:{}", b.len(), sum)).unwrap_or_else(|| "~".into())));
+            }
+            Err(e) => parts.push(format!("err{}", e.code)),
+        }
+    }
+    format!("resp[{}]", parts.join("/"))
+}
+
+/// bigbin <flavour> <n> <cap> <shape>: a response with an n-byte payload (generated here, not passed on the command line),
+/// then more of the stream, read with at most <cap> bytes per read (0 = no cap); prints a digest of every outcome.
+///   shape f = followed by a small response, a binary-only response of 100000 bytes and another small one, then end of stream
+///   shape g = followed at once by a binary-only response of 100000 bytes and a small one, then end of stream
+///   shape u = followed by "OK" without its line feed, then end of stream (unclean)
+///   shape v = the big thing is a field value instead of a payload, followed by a small response
+fn run_bigbin(toks: &[&str]) -> String {
+    let flavour = toks[1];
+    let n: usize = toks[2].parse().unwrap_or(0);
+    let cap: usize = toks[3].parse().unwrap_or(0);
+    let shape = toks[4];
+    let mut stream = GREETING.to_vec();
+    if shape == "v" {
+        stream.extend_from_slice(b"pre: x\nkey: ");
+        stream.extend(pattern(n).iter().map(|b| b'a' + (b % 26)));
+        stream.extend_from_slice(b"\nOK\nvolume: 50\nOK\n");
+    } else {
+        stream.extend_from_slice(format!("size: 1\nbinary: {n}\n").as_bytes());
+        stream.extend_from_slice(&pattern(n));
+        stream.extend_from_slice(b"\nOK\n");
+        if shape == "g" {
+            // the next response starts at once and nothing of it can be consumed before all of it has arrived
+            stream.extend_from_slice(b"binary: 100000\n");
+            stream.extend_from_slice(&pattern(100000));
+            stream.extend_from_slice(b"\nOK\nstate: play\nOK\n");
+        } else if shape == "f" {
+            stream.extend_from_slice(b"volume: 50\nOK\n");
+            stream.extend_from_slice(b"binary: 100000\n");
+            stream.extend_from_slice(&pattern(100000));
+            stream.extend_from_slice(b"\nOK\nstate: play\nOK\n");
+        } else {
+            stream.extend_from_slice(b"OK");
+        }
+    }
+    let chunks: Vec<Vec<u8>> = if cap == 0 { vec![stream] } else { stream.chunks(cap).map(|c| c.to_vec()).collect() };
+    let reader = ChunkReader::new(chunks, false);
+    let res = catch(move || {
+        let mut out: Vec<String> = Vec::new();
+        let show = |r: Result<Option<Response>, MpdProtocolError>| match r {
+            Ok(Some(resp)) => (digest(&resp), true),
+            Ok(None) => ("eof".to_string(), false),
+            Err(e) => (show_error(&e), false),
+        };
+        if flavour == "b" {
+            let mut conn = match Connection::connect(reader) {
+                Ok(c) => c,
+                Err(e) => return format!("connect:{}", show_error(&e)),
+            };
+            loop {
+                let (s, more) = show(conn.receive());
+                out.push(s);
+                if !more {
+                    break;
+                }
+            }
+        } else {
+            let rt = tokio::runtime::Builder::new_current_thread().build().unwrap();
+            let r: Result<(), String> = rt.block_on(async {
+                let mut conn = match AsyncConnection::connect(reader).await {
+                    Ok(c) => c,
+                    Err(e) => return Err(format!("connect:{}", show_error(&e))),
+                };
+                loop {
+                    let (s, more) = show(conn.receive().await);
+                    out.push(s);
+                    if !more {
+                        break;
+                    }
+                }
+                Ok(())
+            });
+            if let Err(e) = r {
+                return e;
+            }
+        }
+        out.join(" | ")
+    });
+    match res {
+        Ok(s) => s,
+        Err(p) => format!("PANIC {}", hex(p.as_bytes())),
+    }
+}
+
 /// <kind> <flavour b|a> <extra> <tail eof|err> <chunk>...
 pub fn run(toks: &[&str]) -> String {
+    if toks[0] == "bigbin" {
+        return run_bigbin(toks);
+    }
     let with_greeting = toks[0] == "recv";
     let flavour = toks[1];
     let extra: usize = toks[2].parse().unwrap_or(0);
